@@ -1,15 +1,17 @@
 #!/bin/bash
-# usage: seedtest.sh <seed-dir> <prop> [more props...]   applies patch.diff to /repo, runs the quick checks, restores /repo
+# usage: seedtest.sh <seed-dir> <prop> [more props...]
+# Applies <seed-dir>/patch.diff to a scratch worktree of /repo's HEAD (never to /repo itself),
+# runs the quick checks against it with outputs redirected, and removes the worktree.
 export GOFLAGS=-mod=mod GOPROXY=off GOSUMDB=off GOTOOLCHAIN=local
 d=$1; shift
-cd /repo || exit 2
-if [ -n "$(git status --porcelain --untracked-files=no)" ]; then echo "repo not clean"; exit 2; fi
-git apply "$d/patch.diff" || { echo "patch does not apply"; exit 2; }
-go build ./... || { echo "does not build"; git checkout -- .; exit 2; }
+wt=$(mktemp -d /tmp/seedwt.XXXXXX); rmdir $wt
+git -C /repo worktree add -q --detach $wt HEAD || exit 2
+trap 'git -C /repo worktree remove --force $wt; rm -rf $wt.out' EXIT
+git -C $wt apply "$d/patch.diff" || { echo "== $d: patch does not apply"; exit 2; }
+(cd $wt && go build ./...) || { echo "== $d: does not build"; exit 2; }
 cd /verif
 for p in "$@"; do
-  out=$(bin/govc check --prop $p --tier quick 2>&1); rc=$?
-  echo "== $d $p exit=$rc"
-  echo "$out" | grep "^VIOLATION" | cut -c1-260 | head -8
+  out=$(VERIF_OUT=$wt.out bin/govc check --repo $wt --prop $p --tier quick 2>&1); rc=$?
+  echo "== $d $p exit=$rc $(echo "$out" | tail -1 | cut -c1-100)"
+  echo "$out" | grep "^VIOLATION" | sed "s|$wt.out|OUT|" | cut -c1-230 | head -6
 done
-git -C /repo checkout -- .
